@@ -192,7 +192,7 @@ def r09_1(chk, sd, dx):
     for q, evalname in (("brents_stock", "one_weight"), ("brents_pro", "one_rho")):
         ev = dx.ev(q)
         chk.saw(DX, q)
-        first_ret = ev.returns[0]
+        first_ret = ev.returns.pick(0)
         sentinel = first_ret.value.const_value()
         okg = any(pol and c.as_atom() and c.as_atom()[0] == "lt" and c.as_atom()[1] == P.const(0) for c, pol in first_ret.guards)
         chk.ob("R09.1", DX, q, "no sign change between the bounds returns a negative sentinel before iterating",
